@@ -282,10 +282,91 @@ impl<'a> UserModel<'a> {
                 old_value,
             });
         }
-        // A cut also clears its source. That happens further down, once the target is
-        // written, but it is recorded here: replaying "clear the anchor of a dynamic array"
-        // erases its whole spill, which may overlap cells of the target.
-        let source_diffs_at = diff_list.len();
+        // A cut clears its source first (what it moves is in the clipboard already): clearing
+        // the anchor of a dynamic array erases its whole spill, which may overlap cells of the
+        // target, and the recorded order is the order redo and other models replay.
+        if is_cut {
+            for row in source_first_row..=source_last_row {
+                for column in source_first_column..=source_last_column {
+                    if (source_sheet == sheet) && seen_cells.contains(&(row, column)) {
+                        continue;
+                    }
+                    let old_value = self
+                        .model
+                        .workbook
+                        .worksheet(source_sheet)?
+                        .cell(row, column)
+                        .cloned();
+
+                    diff_list.push(Diff::RangeClearContents {
+                        sheet: source_sheet,
+                        row,
+                        column,
+                        width: 1,
+                        height: 1,
+                        old_value: vec![vec![old_value.clone()]],
+                    });
+
+                    // a cut also moves the link away from the source cell
+                    let old_link = self.model.get_cell_link(source_sheet, row, column)?;
+                    if let Some(old_link) = old_link {
+                        self.model.delete_cell_link(source_sheet, row, column)?;
+                        diff_list.push(Diff::SetCellLink {
+                            sheet: source_sheet,
+                            row,
+                            column,
+                            old_value: Box::new(Some(old_link)),
+                            new_value: Box::new(None),
+                        });
+                    }
+
+                    // If the source is a dynamic formula anchor, range_clear_contents
+                    // would erase its entire spill — including cells that were just
+                    // written to by this paste.  Clear the anchor and its spill cells
+                    // individually instead, skipping any paste-target cells.
+                    let spill_dims = match &old_value {
+                        Some(Cell::ArrayFormula {
+                            kind: ArrayKind::Dynamic,
+                            r,
+                            ..
+                        }) => Some(*r),
+                        _ => None,
+                    };
+                    if let Some((spill_w, spill_h)) = spill_dims {
+                        let ws = self.model.workbook.worksheet_mut(source_sheet)?;
+                        for sr in row..row + spill_h {
+                            for sc in column..column + spill_w {
+                                // (nothing is pasted yet: the cells of the spill that are
+                                // also targets are written afterwards)
+                                let _ = ws.cell_clear_contents(sr, sc);
+                            }
+                        }
+                    } else {
+                        let area = Area {
+                            sheet: source_sheet,
+                            row,
+                            column,
+                            width: 1,
+                            height: 1,
+                        };
+                        self.model.range_clear_contents(&area)?;
+                    }
+                    let old_style = self
+                        .model
+                        .get_cell_style_or_none(source_sheet, row, column)?;
+                    let default_style = Style::default();
+                    self.model
+                        .set_cell_style(source_sheet, row, column, &default_style)?;
+                    diff_list.push(Diff::SetCellStyle {
+                        sheet: source_sheet,
+                        row,
+                        column,
+                        old_value: Box::new(old_style),
+                        new_value: Box::new(default_style),
+                    });
+                }
+            }
+        }
         self.model.range_clear_contents(target_area)?;
         // set the new values and styles
         for (target_row, target_column, old_value, old_style, new_value, style) in changes {
@@ -356,90 +437,6 @@ impl<'a> UserModel<'a> {
             }
         }
         if is_cut {
-            let source_diffs_from = diff_list.len();
-            for row in source_first_row..=source_last_row {
-                for column in source_first_column..=source_last_column {
-                    if (source_sheet == sheet) && seen_cells.contains(&(row, column)) {
-                        continue;
-                    }
-                    let old_value = self
-                        .model
-                        .workbook
-                        .worksheet(source_sheet)?
-                        .cell(row, column)
-                        .cloned();
-
-                    diff_list.push(Diff::RangeClearContents {
-                        sheet: source_sheet,
-                        row,
-                        column,
-                        width: 1,
-                        height: 1,
-                        old_value: vec![vec![old_value.clone()]],
-                    });
-
-                    // a cut also moves the link away from the source cell
-                    let old_link = self.model.get_cell_link(source_sheet, row, column)?;
-                    if let Some(old_link) = old_link {
-                        self.model.delete_cell_link(source_sheet, row, column)?;
-                        diff_list.push(Diff::SetCellLink {
-                            sheet: source_sheet,
-                            row,
-                            column,
-                            old_value: Box::new(Some(old_link)),
-                            new_value: Box::new(None),
-                        });
-                    }
-
-                    // If the source is a dynamic formula anchor, range_clear_contents
-                    // would erase its entire spill — including cells that were just
-                    // written to by this paste.  Clear the anchor and its spill cells
-                    // individually instead, skipping any paste-target cells.
-                    let spill_dims = match &old_value {
-                        Some(Cell::ArrayFormula {
-                            kind: ArrayKind::Dynamic,
-                            r,
-                            ..
-                        }) => Some(*r),
-                        _ => None,
-                    };
-                    if let Some((spill_w, spill_h)) = spill_dims {
-                        let ws = self.model.workbook.worksheet_mut(source_sheet)?;
-                        for sr in row..row + spill_h {
-                            for sc in column..column + spill_w {
-                                if (source_sheet == sheet) && seen_cells.contains(&(sr, sc)) {
-                                    continue;
-                                }
-                                let _ = ws.cell_clear_contents(sr, sc);
-                            }
-                        }
-                    } else {
-                        let area = Area {
-                            sheet: source_sheet,
-                            row,
-                            column,
-                            width: 1,
-                            height: 1,
-                        };
-                        self.model.range_clear_contents(&area)?;
-                    }
-                    let old_style = self
-                        .model
-                        .get_cell_style_or_none(source_sheet, row, column)?;
-                    let default_style = Style::default();
-                    self.model
-                        .set_cell_style(source_sheet, row, column, &default_style)?;
-                    diff_list.push(Diff::SetCellStyle {
-                        sheet: source_sheet,
-                        row,
-                        column,
-                        old_value: Box::new(old_style),
-                        new_value: Box::new(default_style),
-                    });
-                }
-            }
-            let source_diffs: Vec<Diff> = diff_list.drain(source_diffs_from..).collect();
-            diff_list.splice(source_diffs_at..source_diffs_at, source_diffs);
             // Update external formulas that reference cells in the moved area.
             // source_sheet is used here (not `sheet`) so cross-sheet paste works.
             let ext_area = Area {
